@@ -536,4 +536,29 @@ def judge (before after : Fs) (srcs : List (String × String)) (e : End) : Verdi
       (srcs.any fun s => s.1 == p) || after.get? p == some c
     onlyTempExtra := after.names.all fun p => before.contains p || isTempName p }
 
+/-! ### The final move: an atomic replace, or a failure — nothing else
+
+`move_file(temp, in_path)` is `os.replace` and only that: the operation `replace dst` either happens as ONE step
+(`apply`: the entry `dst` goes from the complete old bytes to the complete new bytes, the temp entry disappears) or
+it faults and the directory is as before (`handler`). This is a HYPOTHESIS about the code, tied statically
+(`Generated/FsMove.lean`: the calls `move_file` / `move_temp_file` / `remove_temp_file` make, read by ast;
+`Props/C15.lean` `move_file_is_replace_only`) and dynamically (the harness fails the rename with every errno class
+and watches every `os.*` / `shutil.*` / `open` call made afterwards). What a move that is NOT of this shape does to
+the property is the counter-model below. -/
+
+def Op.isWrite : Op → Bool
+  | .write _ _ => true
+  | _ => false
+
+/-- NOT pypyr: what a copy fallback does after `os.replace` was refused (EBUSY: the in file is a mount point of
+    its own; EXDEV) — `shutil.copyfile(temp, dst)`: open `dst` for writing (truncates the LIVE inode), stream the
+    chunks into it, close. (`os.remove(temp)` follows; it is not needed for the witness.) -/
+def copyFallbackOps (dst : String) (body : List Op) : List Op :=
+  .openWrite dst :: (body.filter Op.isWrite ++ [.close])
+
+/-- NOT pypyr: the in-place route with the refused rename replaced by the copy fallback -/
+def inplaceFallbackOps (early : Bool) (src dst tmp : String) (body : List Op) : List Op :=
+  headOps early src tmp ++ (body ++ ((if early then [.close] else [.close, .closeIn]) ++ copyFallbackOps dst body))
+
+
 end Pypyr.FsRewrite
